@@ -129,10 +129,12 @@ class ExtendedEOF(EOF):
         shift = np.arange(embedding) * tau
         X_extended = []
         for i in shift:
-            X_extended.append(X.shift(sample=-i))
+            X_extended.append(X.shift({self.sample_name: -i}))
         X_extended = xr.concat(X_extended, dim="embedding")
         n_samples_cut = (embedding - 1) * tau
-        X_extended = X_extended.isel(sample=slice(None, -n_samples_cut))
+        X_extended = X_extended.isel(
+            {self.sample_name: slice(None, -n_samples_cut)}
+        )
         X_extended.coords.update({"embedding": shift})
 
         # Perform standard PCA on extended data
@@ -160,7 +162,7 @@ class ExtendedEOF(EOF):
         if self.pca:
             self.data["components"] = xr.dot(
                 self.pca.data["components"].rename({"mode": "temp"}),
-                self.data["components"].rename({"feature": "temp"}),
+                self.data["components"].rename({self.feature_name: "temp"}),
                 dims="temp",
             )
 
